@@ -378,8 +378,8 @@ fn block_letters(s: Stream, intra: bool) -> Vec<(&'static str, Vec<bool>)> {
     v.push(("run-63-then-more", with_dc(cat(&[&escf(false, 63, 3), &short_last]))));
     v.push(("run-overflow-chain", with_dc(cat(&[&escf(false, 40, 2), &escf(false, 40, -2), &short_last]))));
     // accumulations inside one block: the position (and anything summed from runs or counted per
-    // event) passes 255/256, 512 and 65535 before the event flagged LAST
-    for (name, k) in [("run-63-x4", 4usize), ("run-63-x5", 5), ("run-63-x9", 9), ("run-63-x70", 70), ("run-63-x1100", 1100)] {
+    // event) passes 255/256 and 512 before the event flagged LAST (longer ones: family "accumulate")
+    for (name, k) in [("run-63-x4", 4usize), ("run-63-x5", 5), ("run-63-x9", 9)] {
         let mut x = vec![];
         for i in 0..k {
             x.extend(escf(false, 63, if i % 2 == 0 { 2 } else { -3 }));
@@ -387,13 +387,13 @@ fn block_letters(s: Stream, intra: bool) -> Vec<(&'static str, Vec<bool>)> {
         x.extend(short_last.iter());
         v.push((name, with_dc(x)));
     }
-    for (name, k) in [("events-x70", 70usize), ("events-x300", 300), ("events-x70000", 70000)] {
+    {
         let mut x = vec![];
-        for _ in 0..k {
+        for _ in 0..70 {
             x.extend(short_more.iter());
         }
         x.extend(short_last.iter());
-        v.push((name, with_dc(x)));
+        v.push(("events-x70", with_dc(x)));
     }
     if intra {
         v.push(("intradc-0", cat(&[&b("00000000"), &short_last])));
@@ -1063,6 +1063,88 @@ fn family_umv(tier: Tier, sink: &mut Sink) {
     }
 }
 
+/// family 9: long accumulations inside one block (positions / event counts beyond 2^8, 2^12, 2^16)
+fn family_accumulate(tier: Tier, sink: &mut Sink) {
+    let _ = tier;
+    let mut block = 0u64;
+    for s in [Stream::SorV0, Stream::SorV1, Stream::Std] {
+        let esc = code(TCOEF_VLC[102]);
+        let short_last = cat(&[&code(TCOEF_VLC[58]), &b("0")]);
+        let short_more = cat(&[&code(TCOEF_VLC[0]), &b("1")]);
+        let escf = |run: u32, level: i32| -> Vec<bool> {
+            let mut w = BitWriter::new();
+            if s == Stream::SorV1 {
+                w.put(0, 1);
+                w.put(0, 1);
+                w.put(run, 6);
+                w.put((level as u32) & 0x7F, 7);
+            } else {
+                w.put(0, 1);
+                w.put(run, 6);
+                w.put((level as u32) & 0xFF, 8);
+            }
+            cat(&[&esc, &bits_of(&w.bytes)[..w.nbits]])
+        };
+        let mut bodies: Vec<(String, Vec<bool>)> = vec![];
+        for k in [70usize, 300, 1100, 4200] {
+            let mut x = vec![];
+            for i in 0..k {
+                x.extend(escf(63, if i % 2 == 0 { 2 } else { -3 }));
+            }
+            x.extend(short_last.iter());
+            bodies.push((format!("{k} escapes of run 63"), x));
+        }
+        for k in [300usize, 4200, 70000] {
+            let mut x = vec![];
+            for _ in 0..k {
+                x.extend(short_more.iter());
+            }
+            x.extend(short_last.iter());
+            bodies.push((format!("{k} short events"), x));
+        }
+        let dc = b("01000000");
+        let types: &[u8] = if s == Stream::Std { &[0, 1] } else { &[0, 1, 2] };
+        for &pt in types {
+            for (hname, hist) in histories(s, false).into_iter().take(2) {
+                for (bname, body) in &bodies {
+                    let mine = sink.begin(9, block);
+                    block += 1;
+                    if !mine {
+                        continue;
+                    }
+                    for two in [false, true] {
+                        for blk5 in [false, true] {
+                            let (w, h) = if two { (32u16, 16u16) } else { (16, 16) };
+                            let mut wr = encode(&Pic { hdr: stream_hdr(s, w, h, pt, 5, 2), mbs: vec![] });
+                            if two {
+                                if pt == 0 {
+                                    wr.put_bits(&cat(&[&code(MCBPC_I[0]), &code(CBPY[0]), &dc, &dc, &dc, &dc, &dc, &dc]));
+                                } else {
+                                    wr.put_bits(&b("1"));
+                                }
+                            }
+                            let mb = if pt == 0 {
+                                if blk5 {
+                                    cat(&[&code(MCBPC_I[1]), &code(CBPY[0]), &dc, &dc, &dc, &dc, &dc, &dc, body])
+                                } else {
+                                    cat(&[&code(MCBPC_I[0]), &code(CBPY[8]), &dc, body, &dc, &dc, &dc, &dc, &dc])
+                                }
+                            } else if blk5 {
+                                cat(&[&b("0"), &code(MCBPC_P[1]), &code(CBPY[15]), &b("1"), &b("1"), body])
+                            } else {
+                                cat(&[&b("0"), &code(MCBPC_P[0]), &code(CBPY[7]), &b("1"), &b("1"), body])
+                            };
+                            wr.put_bits(&mb);
+                            wr.put(0, 24);
+                            sink.case(s.opts()[0], &hist, &wr.bytes, &|| format!("accumulate {s:?} type {pt} {w}x{h} {hname}: {bname} in block {}", if blk5 { 5 } else { 0 }));
+                        }
+                    }
+                }
+            }
+        }
+    }
+}
+
 /// family 7: every motion-vector differential pair on single- and four-macroblock predicted pictures
 fn family_vectors(tier: Tier, sink: &mut Sink) {
     let mut block = 0u64;
@@ -1105,7 +1187,7 @@ fn family_vectors(tier: Tier, sink: &mut Sink) {
 }
 
 pub fn families(tier: Tier, sink: &mut Sink) {
-    let fams: [(&str, fn(Tier, &mut Sink)); 7] = [("grammar", family_grammar), ("headers", family_headers), ("corruption", family_corruption), ("raw", family_raw), ("umv", family_umv), ("vectors", family_vectors), ("double-corruption", family_double_corruption)];
+    let fams: [(&str, fn(Tier, &mut Sink)); 8] = [("grammar", family_grammar), ("headers", family_headers), ("corruption", family_corruption), ("raw", family_raw), ("umv", family_umv), ("vectors", family_vectors), ("double-corruption", family_double_corruption), ("accumulate", family_accumulate)];
     for (name, f) in fams {
         let (t0, c0) = (std::time::Instant::now(), sink.cases);
         f(tier, sink);
@@ -1267,7 +1349,7 @@ pub fn run(tier: Tier) -> Report {
         rep.states.store(0, std::sync::atomic::Ordering::Relaxed);
     }
     rep.set_rule(
-        "decode_next_picture under catch_unwind (overflow checks on) in isolated single-threaded worker processes with a shared-memory journal, watchdog and address-space cap: (1) macroblock-token sequences of length 0..capacity+2 with at most d non-default letters (quick: d=2 for pictures of <= 2 macroblocks, d=1 otherwise; thorough: d=2 everywhere and d=3 for pictures of <= 2 macroblocks in two histories) over complete-macroblock alphabets (every MCBPC/CBPY codeword, stuffing, invalid prefixes, DQUANT, extreme/invalid MVDs, block letters: escapes 0/min/max per width, run overflow, INTRADC 0/128/255, invalid TCOEF) x 3 stream kinds x I/P/D x sizes x quantizers 1,31 x decoder histories x option sets x tails; (2) a header alphabet (zero/odd/huge/reserved sizes, all types, marker errors, PLUSPTYPE mode patterns) x bodies x histories, truncated at every byte; (3) every single-byte substitution, deletion and duplication of base pictures; (4) all byte strings of <= 2 (thorough 3) bytes alone and all 2-byte strings after headers; (6) unrestricted-motion-vector accumulations; (8, thorough) every adjacent byte pair over all 65536 values and every pair of positions over a 16-value alphabet on tiny base pictures; (7) every 64x64 differential pair (one- and four-vector) at every macroblock position of small predicted pictures; plus labelled random sampling; inputs declaring more than 2^22 pixels are excluded by an exact header pre-filter; non-trivial = inputs that begin with a start code",
+        "decode_next_picture under catch_unwind (overflow checks on) in isolated single-threaded worker processes with a shared-memory journal, watchdog and address-space cap: (1) macroblock-token sequences of length 0..capacity+2 with at most d non-default letters (quick: d=2 for pictures of <= 2 macroblocks, d=1 otherwise; thorough: d=2 everywhere and d=3 for pictures of <= 2 macroblocks in two histories) over complete-macroblock alphabets (every MCBPC/CBPY codeword, stuffing, invalid prefixes, DQUANT, extreme/invalid MVDs, block letters: escapes 0/min/max per width, run overflow, INTRADC 0/128/255, invalid TCOEF) x 3 stream kinds x I/P/D x sizes x quantizers 1,31 x decoder histories x option sets x tails; (2) a header alphabet (zero/odd/huge/reserved sizes, all types, marker errors, PLUSPTYPE mode patterns) x bodies x histories, truncated at every byte; (3) every single-byte substitution, deletion and duplication of base pictures; (4) all byte strings of <= 2 (thorough 3) bytes alone and all 2-byte strings after headers; (6) unrestricted-motion-vector accumulations; (9) blocks whose escape runs / event counts accumulate past 2^8, 2^12 and 2^16; (8, thorough) every adjacent byte pair over all 65536 values and every pair of positions over a 16-value alphabet on tiny base pictures; (7) every 64x64 differential pair (one- and four-vector) at every macroblock position of small predicted pictures; plus labelled random sampling; inputs declaring more than 2^22 pixels are excluded by an exact header pre-filter; non-trivial = inputs that begin with a start code",
     );
     rep.sample(json!({"family": "grammar", "case": "Sorenson v1 P 32x16 q=31 after [I 32x32]: [inter mv0, blk0 escape-max, inter mv0] + following start code"}));
     rep.sample(json!({"family": "headers", "case": "Sorenson v0 size 0x16 type 0, body = 1 default macroblock, after [I 16x16, D 16x16]"}));
